@@ -183,10 +183,12 @@ let head_of = function L (A h :: _) -> h | A a -> a | Q _ -> "\"\"" | L _ -> "()
 let rec first_diff (path : string) (a : sx) (b : sx) : string option =
   if a = b then None
   else match a, b with
-    | L la, L lb when List.length la = List.length lb && (match la, lb with A x :: _, A y :: _ -> x = y | _ -> true) ->
+    | L la, L lb when (match la, lb with A x :: _, A y :: _ -> x = y | _ -> true) ->
       let rec go i xs ys = match xs, ys with
         | x :: xs', y :: ys' -> (match first_diff (path ^ "/" ^ head_of a ^ "." ^ string_of_int i) x y with Some d -> Some d | None -> go (i + 1) xs' ys')
-        | _ -> None in
+        | x :: _, [] -> Some ("at " ^ path ^ "/" ^ head_of a ^ "." ^ string_of_int i ^ ": canonical " ^ clip160 (sx_s x) ^ " | translated has nothing here")
+        | [], y :: _ -> Some ("at " ^ path ^ "/" ^ head_of a ^ "." ^ string_of_int i ^ ": canonical has nothing here | translated " ^ clip160 (sx_s y))
+        | [], [] -> None in
       go 0 la lb
     | _ -> Some ("at " ^ (if path = "" then "/" else path) ^ ": canonical " ^ clip160 (sx_s a) ^ " | translated " ^ clip160 (sx_s b))
 
